@@ -373,4 +373,331 @@ theorem run_placed (a : Args) :
             intro f hf
             exact ⟨out, by simp, save_placed l out fs hsv f hf⟩
 
+/-! ## the whole run refines the specification -/
+
+/-- `filter_only_selected` said with `LaserEq`: the filter loop of the code leaves the image the
+specification describes. -/
+theorem filter_eq_spec (f : String → Grid Tok → Grid Tok) (sel : Option (List String)) (l : Laser)
+    (hnd : l.elements.Nodup) (hsel : ∀ s, sel = some s → s.Nodup) :
+    LaserEq (filterStep f sel l) (filterSpec f sel l) := by
+  obtain ⟨h1, h2, h3, h4, h5⟩ := filter_only_selected f sel l hnd hsel
+  exact ⟨h1, h2, h3, h4, fun i j _ _ => funext fun n => h5 i j n⟩
+
+/-- `stack_eq_spec` lifted to images: stacking fails exactly when the specification has no result
+(no inputs, or inputs with different element lists); otherwise the result has the elements and the
+configuration of the first input and the data `stackSpec` describes. -/
+theorem stack_lasers_eq_spec (o : Orient) (pad : Tok) (ls : List Laser) :
+    match stackLasers o pad ls, stackLasersSpec o pad ls with
+    | some l, some l' => LaserEq l l'
+    | none, none => True
+    | _, _ => False := by
+  cases ls with
+  | nil => simp [stackLasers, stackLasersSpec]
+  | cons l0 t =>
+    obtain ⟨g, hg, -, -⟩ := stack_shape o (fun _ => pad) ((l0 :: t).map (·.data)) (by simp)
+    obtain ⟨hh, hw, hpix⟩ := stack_eq_spec o (fun _ => pad) _ g hg
+    by_cases hall : ((l0 :: t).all fun l => l.elements == l0.elements) = true
+    · simp only [stackLasers, stackLasersSpec, hall, if_true, hg, Option.map_some]
+      exact ⟨rfl, rfl, hh, hw, hpix⟩
+    · simp only [stackLasers, stackLasersSpec, hall]
+      trivial
+
+/-- The loop of `main` over a stretch `pre` of the work list whose outputs have supported suffixes
+(wherever an image is saved at all) appends the files the specification names for `pre` and goes
+on with the rest. -/
+theorem loop_prefix (cmd : Cmd) (hcmd : cmd.isStack = false)
+    (hsel : ∀ f s, cmd = .filter f (some s) → s.Nodup)
+    (pre rest : List (Nat × Laser × Path)) (acc : List File)
+    (hnd : ∀ f sel, cmd = .filter f sel → ∀ x ∈ pre, x.2.1.elements.Nodup)
+    (hsuf : ∀ x ∈ pre, specStep cmd x.1 x.2.1 ≠ none → lower x.2.2.suffix ∈ validFormats) :
+    ∃ fs, FilesEq fs (pre.flatMap (specItem cmd)) ∧
+      loop cmd (pre ++ rest) acc = loop cmd rest (acc ++ fs) := by
+  induction pre generalizing acc with
+  | nil => exact ⟨[], trivial, by simp⟩
+  | cons x t ih =>
+    obtain ⟨k, l, out⟩ := x
+    have hnd' : ∀ f sel, cmd = .filter f sel → ∀ x ∈ t, x.2.1.elements.Nodup :=
+      fun f sel hc x hx => hnd f sel hc x (List.mem_cons_of_mem _ hx)
+    have hsuf' : ∀ x ∈ t, specStep cmd x.1 x.2.1 ≠ none → lower x.2.2.suffix ∈ validFormats :=
+      fun x hx => hsuf x (List.mem_cons_of_mem _ hx)
+    have hout := hsuf (k, l, out) (by simp)
+    cases cmd with
+    | stack o pad => simp [Cmd.isStack] at hcmd
+    | convert cfg els =>
+      simp only [List.cons_append, loop, List.flatMap_cons, specItem, specStep, restrict_spec] at hout ⊢
+      cases hr : restrictSpec cfg els l with
+      | none =>
+        obtain ⟨fs, hfs, hl⟩ := ih acc hnd' hsuf'
+        exact ⟨fs, by simpa using hfs, hl⟩
+      | some l' =>
+        rw [hr] at hout
+        simp only [save_spec l' out (hout (by simp))]
+        obtain ⟨fs, hfs, hl⟩ := ih (acc ++ specFiles (lower out.suffix) l' out) hnd' hsuf'
+        exact ⟨specFiles (lower out.suffix) l' out ++ fs, FilesEq.append (FilesEq.refl _) hfs,
+          by rw [hl, List.append_assoc]⟩
+    | filter f sel =>
+      simp only [List.cons_append, loop, List.flatMap_cons, specItem, specStep] at hout ⊢
+      simp only [save_spec _ out (hout (by simp))]
+      obtain ⟨fs, hfs, hl⟩ := ih (acc ++ specFiles (lower out.suffix) (filterStep (f k) sel l) out) hnd' hsuf'
+      have hle : LaserEq (filterStep (f k) sel l) (filterSpec (f k) sel l) :=
+        filter_eq_spec (f k) sel l (hnd f sel rfl (k, l, out) (by simp))
+          (fun s hs => hsel f s (by rw [hs]))
+      exact ⟨specFiles (lower out.suffix) (filterStep (f k) sel l) out ++ fs,
+        FilesEq.append (specFiles_congr _ out hle) hfs, by rw [hl, List.append_assoc]⟩
+
+/-- **The loop, run to the end.**  When every output that is written to has a supported suffix, the
+loop of `convert` / `filter` ends with status ok having written, for every input in order, the files
+the specification names: the image the library calls give (restricted / reconfigured / filtered;
+skipped inputs give nothing) in the format of the output's suffix. -/
+theorem loop_refines_spec (cmd : Cmd) (hcmd : cmd.isStack = false)
+    (work : List (Nat × Laser × Path))
+    (hnd : ∀ f sel, cmd = .filter f sel → ∀ x ∈ work, x.2.1.elements.Nodup)
+    (hsel : ∀ f s, cmd = .filter f (some s) → s.Nodup)
+    (hsuf : ∀ x ∈ work, specStep cmd x.1 x.2.1 ≠ none → lower x.2.2.suffix ∈ validFormats) :
+    RunEq (loop cmd work []) ⟨.ok, work.flatMap (specItem cmd)⟩ := by
+  obtain ⟨fs, hfs, hl⟩ := loop_prefix cmd hcmd hsel work [] [] hnd hsuf
+  rw [List.append_nil] at hl
+  rw [hl]
+  exact ⟨rfl, by simpa [loop] using hfs⟩
+
+/-- **Partial failure.**  When the first output with an unsupported suffix (of an input that is not
+skipped) is that of `x`, the run fails there, and what it leaves behind are exactly the files of the
+inputs before `x`; nothing of `x` or of later inputs is written. -/
+theorem loop_partial_failure (cmd : Cmd) (hcmd : cmd.isStack = false)
+    (pre : List (Nat × Laser × Path)) (x : Nat × Laser × Path) (post : List (Nat × Laser × Path))
+    (hnd : ∀ f sel, cmd = .filter f sel → ∀ y ∈ pre, y.2.1.elements.Nodup)
+    (hsel : ∀ f s, cmd = .filter f (some s) → s.Nodup)
+    (hsuf : ∀ y ∈ pre, specStep cmd y.1 y.2.1 ≠ none → lower y.2.2.suffix ∈ validFormats)
+    (hx : specStep cmd x.1 x.2.1 ≠ none) (hbad : lower x.2.2.suffix ∉ validFormats) :
+    RunEq (loop cmd (pre ++ x :: post) []) ⟨.error, pre.flatMap (specItem cmd)⟩ := by
+  obtain ⟨fs, hfs, hl⟩ := loop_prefix cmd hcmd hsel pre (x :: post) [] hnd hsuf
+  rw [hl]
+  obtain ⟨k, l, out⟩ := x
+  cases cmd with
+  | stack o pad => simp [Cmd.isStack] at hcmd
+  | convert cfg els =>
+    simp only [specStep, ← restrict_spec] at hx
+    cases hc : convertStep cfg els l with
+    | none => exact absurd hc hx
+    | some l' =>
+      simp only [loop, hc, save_bad l' out hbad]
+      exact ⟨rfl, by simpa using hfs⟩
+  | filter f sel =>
+    simp only [loop, save_bad _ out hbad]
+    exact ⟨rfl, by simpa using hfs⟩
+
+/-- **The whole run refines the specification.**  For every command line of `convert`, `filter` and
+`stack` — any number of inputs of any shapes, any `--format`, `--output` omitted / directory / file,
+`--config`, `--elements`, any (opaque) filter function per input, both orientations, any pad value —
+what `main` (the mechanism `run`: argument checks, output derivation, the loop with its skipping and
+sequential field assignment, pad-and-concatenate, `save` dispatch on the suffix) leaves behind is what
+the specification `specRun` says: the same exit status (usage errors and failed stacks are errors
+with no file; everything else is ok), and the same files in the same order — same paths, same kind
+(.npz image / per-element .csv text image / .vtk), same element names, configuration and shape, and
+the same value of every field at every pixel (`FilesEq`; images are functions, so sameness is
+pointwise).
+
+Hypotheses, needed only for `filter` (they are those of `filter_only_selected`; without them the
+loop applies the filter twice to a repeated name): the field names of each input are distinct and
+`--elements` repeats no name.  None for `convert` and `stack`. -/
+theorem run_refines_spec (a : Args)
+    (hnd : ∀ f sel, a.cmd = .filter f sel → ∀ i ∈ a.inputs, i.laser.elements.Nodup)
+    (hsel : ∀ f s, a.cmd = .filter f (some s) → s.Nodup) :
+    RunEq (run a) (specRun a) := by
+  have hpu := parse_unfold a
+  have hrun_err : (∃ e, parse a = .error e) → run a = ⟨.error, []⟩ := by
+    rintro ⟨e, he⟩; simp only [run, he]
+  by_cases h1 : a.inputs.isEmpty = true
+  · have hs : specRun a = ⟨.error, []⟩ := by simp [specRun, h1]
+    rw [hrun_err ⟨.usage, by rw [hpu]; simp [h1]⟩, hs]; exact RunEq.refl _
+  by_cases h2 : a.inputs.any (fun i => !i.present) = true
+  · have hs : specRun a = ⟨.error, []⟩ := by simp only [specRun, h2]; simp
+    rw [hrun_err ⟨.usage, by rw [hpu]; simp only [h1, h2]; simp⟩, hs]; exact RunEq.refl _
+  by_cases h3 : validFormats.contains a.format = false
+  · have hs : specRun a = ⟨.error, []⟩ := by simp only [specRun, h3]; simp
+    rw [hrun_err ⟨.usage, by rw [hpu]; simp only [h1, h2, h3]; simp⟩, hs]; exact RunEq.refl _
+  have h3' : validFormats.contains a.format = true := by simpa using h3
+  have hf : a.format ∈ validFormats := by simpa using h3'
+  have h1' : a.inputs.isEmpty = false := by simpa using h1
+  have h2' : a.inputs.any (fun i => !i.present) = false := by simpa using h2
+  simp only [h1', h2', h3', outputs_spec, Bool.false_eq_true, Bool.true_eq_false, if_false] at hpu
+  simp only [specRun, h1', h2', h3', Bool.not_true, Bool.or_self, Bool.false_or]
+  cases hso : specOutputs a.cmd.isStack (a.inputs.map (·.path)) a.format a.output a.isDir with
+  | none =>
+    simp only [hso] at hpu
+    rw [hrun_err ⟨.usage, hpu⟩]
+    split_ifs <;> exact RunEq.refl _
+  | some outs =>
+    simp only [hso] at hpu
+    have hsuf := specOutputs_suffix _ _ _ _ _ outs hf hso
+    split_ifs with hK
+    · have hp : parse a = .error .usage := by
+        rw [hpu]
+        cases hreq : a.cmd.requested with
+        | none => simp [hreq] at hK
+        | some els =>
+          simp only [hreq, Bool.not_eq_true', ← known_iff] at hK
+          simp only [hK, if_true]
+      rw [hrun_err ⟨.usage, hp⟩]
+      exact RunEq.refl _
+    · have hp : parse a = .ok outs := by
+        rw [hpu]
+        cases hreq : a.cmd.requested with
+        | none => rfl
+        | some els =>
+          simp only [hreq, Bool.not_eq_true', ← known_iff, Bool.not_eq_false] at hK
+          simp only [hK, Bool.true_eq_false, if_false]
+      have hwork : ∀ x ∈ enum ((a.inputs.map (·.laser)).zip outs),
+          lower x.2.2.suffix = a.format ∧ ∃ i ∈ a.inputs, x.2.1 = i.laser := by
+        intro x hx
+        have hz := List.of_mem_zip (mem_enum _ x hx)
+        obtain ⟨i, hi, hil⟩ := List.mem_map.mp hz.1
+        exact ⟨hsuf _ hz.2, i, hi, hil.symm⟩
+      simp only [run, hp]
+      cases hc : a.cmd with
+      | stack o pad =>
+        simp only
+        have hst := stack_lasers_eq_spec o pad (a.inputs.map (·.laser))
+        cases hm : stackLasers o pad (a.inputs.map (·.laser)) with
+        | none =>
+          cases hs : stackLasersSpec o pad (a.inputs.map (·.laser)) with
+          | none => exact RunEq.refl _
+          | some l' => simp [hm, hs] at hst
+        | some l =>
+          cases hs : stackLasersSpec o pad (a.inputs.map (·.laser)) with
+          | none => simp [hm, hs] at hst
+          | some l' =>
+            simp only [hm, hs] at hst
+            cases outs with
+            | nil => exact RunEq.refl _
+            | cons out rest =>
+              have hout := hsuf out (by simp)
+              have hsv := save_spec l out (by rw [hout]; exact hf)
+              rw [hout] at hsv
+              simp only [hsv]
+              exact ⟨rfl, specFiles_congr _ out hst⟩
+      | convert cfg els =>
+        simp only
+        refine RunEq.trans (loop_refines_spec (.convert cfg els) rfl _ (by intro f sel h; cases h)
+          (by intro f s h; cases h) (fun x hx _ => by rw [(hwork x hx).1]; exact hf)) ⟨rfl, ?_⟩
+        refine FilesEq.of_eq (Eq.trans (flatMap_congr' ?_) (flatMap_enum _ _))
+        intro x hx
+        simp only [specItem, specStep, (hwork x hx).1]
+      | filter f sel =>
+        simp only
+        refine RunEq.trans (loop_refines_spec (.filter f sel) rfl _
+          (fun f' sel' h x hx => by
+            obtain ⟨i, hi, hil⟩ := (hwork x hx).2
+            rw [hil]; exact hnd f sel hc i hi)
+          (fun f' s h => by cases h; exact hsel f s hc)
+          (fun x hx _ => by rw [(hwork x hx).1]; exact hf)) ⟨rfl, ?_⟩
+        refine FilesEq.of_eq (flatMap_congr' ?_)
+        intro x hx
+        simp only [specItem, specStep, (hwork x hx).1]
+
+/-- **All or nothing.**  Because the format is validated before anything is written and every
+derived output carries it as suffix, a run of the three sub-commands never fails part way: when it
+fails it has written nothing (the part-way failure of `loop_partial_failure` needs an output suffix
+that `parse` never lets through). -/
+theorem run_all_or_nothing (a : Args)
+    (hnd : ∀ f sel, a.cmd = .filter f sel → ∀ i ∈ a.inputs, i.laser.elements.Nodup)
+    (hsel : ∀ f s, a.cmd = .filter f (some s) → s.Nodup)
+    (h : (run a).status = .error) : (run a).files = [] := by
+  obtain ⟨hst, hfs⟩ := run_refines_spec a hnd hsel
+  rcases specRun_error_or_ok a with he | hok
+  · rw [he] at hfs
+    exact FilesEq.nil_right hfs
+  · rw [h, hok] at hst
+    cases hst
+
+/-! ### non-vacuity of the whole-run theorems: concrete runs, evaluated -/
+namespace Ex
+
+/-! `filter R/a.npz R/in/b.csv --format .npz --elements B C` over a 1x2 image with elements A, B and
+a 2x1 image with elements B, C; the filter of input `k` adds `10 (k + 1)`; no `--output`.  B is
+filtered in both, C only where it exists, A is untouched. -/
+def exA : Laser := { elements := ["A", "B"], data := ⟨1, 2, fun _ j n => if n = "A" then 1 + j else 3 + j⟩, config := .raster 1 2 3 }
+def exB : Laser := { elements := ["B", "C"], data := ⟨2, 1, fun i _ n => if n = "B" then 5 + i else 7 + i⟩, config := .spot 4 5 }
+def exF : Nat → String → Grid Tok → Grid Tok := fun k _ g => { g with get := fun i j => g.get i j + 10 * (k + 1) }
+def exFilter : Args :=
+  { cmd := .filter exF (some ["B", "C"]),
+    inputs := [⟨⟨"R", "a", ".npz"⟩, true, exA⟩, ⟨⟨"R/in", "b", ".csv"⟩, true, exB⟩],
+    format := ".npz", output := none, isDir := fun _ => false }
+
+example : (run exFilter).status = .ok := by decide
+example : (run exFilter).files.map (·.path) = [⟨"R", "a", ".npz"⟩, ⟨"R/in", "b", ".npz"⟩] := by decide
+example : (run exFilter).files.map (fun f => match f.content with
+      | .npz l => [l.data.get 0 0 "A", l.data.get 0 0 "B", l.data.get 0 0 "C"]
+      | _ => []) = [[1, 13, 3], [7, 25, 27]] := by decide
+
+example : RunEq (run exFilter) (specRun exFilter) :=
+  run_refines_spec exFilter
+    (by intro f sel _ i hi
+        simp only [exFilter, List.mem_cons, List.not_mem_nil, or_false] at hi
+        rcases hi with rfl | rfl <;> decide)
+    (by intro f s h
+        simp only [exFilter, Cmd.filter.injEq, Option.some.injEq] at h
+        rw [← h.2]; decide)
+
+/-! `stack R/a.npz R/b.npz R/c.npz --output R/out.NPZ --pad -1` over images of shapes 1x2, 2x1, 1x3,
+vertically (4x3) and horizontally (2x6): elements and configuration of the first input -/
+def exS1 : Laser := { elements := ["A"], data := ⟨1, 2, fun _ j _ => 10 + j⟩, config := .raster 1 2 3 }
+def exS2 : Laser := { elements := ["A"], data := ⟨2, 1, fun i _ _ => 20 + i⟩, config := .spot 4 5 }
+def exS3 : Laser := { elements := ["A"], data := ⟨1, 3, fun _ j _ => 30 + j⟩, config := .raster 7 8 9 }
+def exStack (o : Orient) : Args :=
+  { cmd := .stack o (-1),
+    inputs := [⟨⟨"R", "a", ".npz"⟩, true, exS1⟩, ⟨⟨"R", "b", ".npz"⟩, true, exS2⟩, ⟨⟨"R", "c", ".npz"⟩, true, exS3⟩],
+    format := ".npz", output := some ⟨"R", "out", ".NPZ"⟩, isDir := fun _ => false }
+
+example : (run (exStack .vertical)).status = .ok := by decide
+example : (run (exStack .vertical)).files.map (·.path) = [⟨"R", "out", ".NPZ"⟩] := by decide
+example : (run (exStack .vertical)).files.map (fun f => match f.content with
+      | .npz l => (l.data.h, l.data.w,
+          (List.range l.data.h).map fun i => (List.range l.data.w).map fun j => l.data.get i j "A")
+      | _ => (0, 0, [])) =
+    [(4, 3, [[10, 11, -1], [20, -1, -1], [21, -1, -1], [30, 31, 32]])] := by decide
+example : (run (exStack .vertical)).files.map (fun f => match f.content with
+      | .npz l => some (l.elements, l.config)
+      | _ => none) = [some (["A"], .raster 1 2 3)] := by decide
+example : (run (exStack .horizontal)).files.map (fun f => match f.content with
+      | .npz l => (l.data.h, l.data.w,
+          (List.range l.data.h).map fun i => (List.range l.data.w).map fun j => l.data.get i j "A")
+      | _ => (0, 0, [])) =
+    [(2, 6, [[10, 11, 20, 30, 31, 32], [-1, -1, 21, -1, -1, -1]])] := by decide
+example (o : Orient) : RunEq (run (exStack o)) (specRun (exStack o)) :=
+  run_refines_spec (exStack o) (by intro f sel h; cases o <;> cases h) (by intro f s h; cases o <;> cases h)
+
+/-! `convert R/a.npz R/d.npz S/c.b --format .csv --elements C A --config 7 8 9 --output R/out` (an
+existing directory); `d.npz` has none of the requested elements and is skipped; one text image per
+kept element, in the image's order -/
+def exC : Laser := { elements := ["A", "B", "C"], data := ⟨1, 2, fun _ j n => if n = "A" then 1 + j else if n = "B" then 3 + j else 5 + j⟩, config := .raster 1 2 3 }
+def exD : Laser := { elements := ["D"], data := ⟨1, 1, fun _ _ _ => 9⟩, config := .raster 1 2 3 }
+def exOut : Path := ⟨"R", "out", ""⟩
+def exConvert : Args :=
+  { cmd := .convert (some (.raster 7 8 9)) (some ["C", "A"]),
+    inputs := [⟨⟨"R", "a", ".npz"⟩, true, exC⟩, ⟨⟨"R", "d", ".npz"⟩, true, exD⟩, ⟨⟨"S", "c", ".b"⟩, true, exC⟩],
+    format := ".csv", output := some exOut, isDir := fun p => p == exOut }
+
+example : (run exConvert).status = .ok := by decide
+example : (run exConvert).files.map (·.path) =
+    [⟨"R/out", "a_A", ".csv"⟩, ⟨"R/out", "a_C", ".csv"⟩, ⟨"R/out", "c_A", ".csv"⟩, ⟨"R/out", "c_C", ".csv"⟩] := by decide
+example : (run exConvert).files.map (fun f => match f.content with
+      | .csv g => (g.h, g.w, (List.range g.h).map fun i => (List.range g.w).map fun j => g.get i j)
+      | _ => (0, 0, [])) =
+    [(1, 2, [[1, 2]]), (1, 2, [[5, 6]]), (1, 2, [[1, 2]]), (1, 2, [[5, 6]])] := by decide
+example : RunEq (run exConvert) (specRun exConvert) :=
+  run_refines_spec exConvert (by intro f sel h; cases h) (by intro f s h; cases h)
+/-- an element no input has is a usage error, nothing is written -/
+example : (run { exConvert with cmd := .convert none (some ["A", "Z"]) }).status = .error ∧
+    (run { exConvert with cmd := .convert none (some ["A", "Z"]) }).files.length = 0 := by decide
+
+/-- partial failure: the second of three outputs has a suffix `save` does not know -/
+example :
+    let work : List (Nat × Laser × Path) :=
+      [(0, exC, ⟨"R", "a", ".NPZ"⟩), (1, exC, ⟨"R", "b", ".txt"⟩), (2, exC, ⟨"R", "c", ".npz"⟩)]
+    (loop (.convert none none) work []).status = .error ∧
+      (loop (.convert none none) work []).files.map (·.path) = [⟨"R", "a", ".NPZ"⟩] := by decide
+
+end Ex
+
 end Pew.Cli
